@@ -68,6 +68,29 @@ Proof.
   unfold ret. now rewrite Nat2Z.id.
 Qed.
 
+Lemma ints_of_map : forall l, ints_of (map PInt l) = Some l.
+Proof. induction l; simpl; [reflexivity|now rewrite IHl]. Qed.
+
+Lemma ints_of_map_nat : forall l, ints_of (map (fun i => PInt (Z.of_nat i)) l) = Some (map Z.of_nat l).
+Proof. induction l; simpl; [reflexivity|now rewrite IHl]. Qed.
+
+Lemma update_cons_same : forall A h (v x : A) r, update h v ((h, x) :: r) = (h, v) :: update h v r.
+Proof. intros. unfold update. simpl. now rewrite Nat.eqb_refl. Qed.
+
+(* what allocate_taco_structure builds per level *)
+Definition arrl (z : Z) : list pv := if Z.eqb z 0 then [] else [PPtr Null; PPtr Null].
+Definition ptrl (z : Z) : list ptr := if Z.eqb z 0 then [] else [Null; Null].
+Fixpoint metas (n : nat) (modes : list Z) : list pv :=
+  match modes with [] => [] | z :: r => PNewMeta n (arrl z) :: metas (S n) r end.
+Fixpoint lvls (n : nat) (modes : list Z) : list (ptr * list ptr) :=
+  match modes with [] => [] | z :: r => (Meta n, ptrl z) :: lvls (S n) r end.
+
+Lemma levels_of_metas : forall modes n, levels_of (metas n modes) = Some (lvls n modes).
+Proof.
+  induction modes as [|z r IH]; intros n; simpl; [reflexivity|]. rewrite IH.
+  unfold arrl, ptrl. destruct (Z.eqb z 0); reflexivity.
+Qed.
+
 Lemma nat_index_0 : forall k m, nat_index (PInt 0) k m = (m, Ret 0).
 Proof. reflexivity. Qed.
 Lemma nat_index_1 : forall k m, nat_index (PInt 1) k m = (m, Ret 1).
@@ -77,7 +100,7 @@ Create HintDb ownapi.
 #[local] Hint Unfold cs_get cs_set get_struct put_struct struct_key wkd_getitem wkd_get wkd_setitem ffi_gc ffi_cast ffi_new
   ptr_of py_slice0 py_getitem py_store dict_store py_enumerate py_iter py_unpack2 py_eq py_lt py_len py_bound
   py_append py_range py_set_eq py_in py_zip_strict py_keys py_attr py_dict_star py_dict1 new_dict new_dict_with new_struct
-  new_tensor tensor_cffi tensor_set_cffi drop drop_all level_ptr : ownapi.
+  new_tensor tensor_cffi tensor_set_cffi drop drop_all level_ptr set_level_array : ownapi.
 
 Ltac look :=
   match goal with
@@ -88,12 +111,20 @@ Ltac look :=
   | H : lookup ?a ?b = _ |- context [lookup ?a ?b] => rewrite H
   | H : sdict_get ?a ?b = _ |- context [sdict_get ?a ?b] => rewrite H
   | H : nth_error ?a ?b = _ |- context [nth_error ?a ?b] => rewrite H
-  | |- context [lookup ?h (update ?h _ _)] => erewrite lookup_update_same by eassumption
+  | |- context [lookup ?h (update ?h _ _)] =>
+      erewrite lookup_update_same by (repeat first [eassumption | eapply lookup_update_same])
   | |- context [sdict_get ?k (sdict_set ?k _ _)] => rewrite sdict_get_set_same
+  | |- context [sdict_get ?k' (sdict_set ?k _ _)] => rewrite (sdict_get_set_other k k') by discriminate
   | |- context [nth_error (replace_nth ?i _ _) ?i] => erewrite nth_error_replace_same by eassumption
   | H : Nat.ltb ?a ?b = _ |- context [Nat.ltb ?a ?b] => rewrite H
   | H : Nat.leb ?a ?b = _ |- context [Nat.leb ?a ?b] => rewrite H
   | H : sd_order ?d = _ |- context [sd_order ?d] => rewrite H
+  | |- context [Nat.ltb 0 2] => change (Nat.ltb 0 2) with true
+  | |- context [Nat.ltb 1 2] => change (Nat.ltb 1 2) with true
+  | H : Z.ltb ?a ?b = _ |- context [Z.ltb ?a ?b] => rewrite H
+  | |- context [update ?h ?v ((?h, ?x) :: ?r)] => rewrite (update_cons_same _ h v x r)
+  | |- context [ints_of (map PInt ?l)] => rewrite (ints_of_map l)
+  | |- context [levels_of (metas ?n ?l)] => rewrite (levels_of_metas l n)
   | |- context [Nat.leb ?a ?a] => rewrite (Nat.leb_refl a)
   | |- context [firstn (List.length ?l) ?l] => rewrite (firstn_all l)
   end.
@@ -109,6 +140,9 @@ Local Arguments lift {A} o e k m /.
 Local Arguments nat_index : simpl never.
 Local Arguments Nat.ltb : simpl never.
 Local Arguments update : simpl never.
+Local Arguments Z.ltb : simpl never.
+Local Arguments metas : simpl never.
+Local Arguments release_all : simpl never.
 
 Ltac op_solve := repeat (autounfold with ownapi; cbn; first [ reflexivity | progress look | idtac ]).
 
@@ -372,13 +406,14 @@ Proof.
         by (apply Nat.ltb_lt; apply nth_error_Some; congruence).
       eexists. split. { repeat mstep. reflexivity. }
       rewrite ?replace_nth_twice. constructor; proj; try reflexivity.
-      + intros. rewrite ?lookup_update_other by auto. reflexivity.
-      + exists dl0. eexists. split; [eassumption|]. split; [|split].
-        * erewrite lookup_update_same; [reflexivity|]. erewrite lookup_update_same; [reflexivity|eassumption].
-        * apply sdict_get_set_same.
-        * intros. rewrite !sdict_get_set_other by auto. reflexivity.
-      + now rewrite release_all_app, map_app.
-      + now rewrite gc_frees_app, app_assoc. }
+      all: first
+        [ solve [intros; rewrite ?lookup_update_other by auto; reflexivity]
+        | solve [exists dl0; eexists; split; [eassumption|]; split; [|split];
+                 [ erewrite lookup_update_same by (repeat first [eassumption | eapply lookup_update_same]); reflexivity
+                 | apply sdict_get_set_same
+                 | intros; rewrite !sdict_get_set_other by auto; reflexivity ]]
+        | solve [rewrite ?release_all_app, ?map_app; reflexivity]
+        | solve [rewrite ?gc_frees_app, ?app_assoc; reflexivity] ]. }
   destruct (arrays_loop s h _ HF _ _ _ Wf k d [] [] m dl eq_refl eq_refl Hs Hd Hlv) as (m1 & Hr & He).
   eapply runs_bind; [exact Hr|]. clear Hr HF.
   destruct (ev_dict _ _ _ _ _ He) as (dl0 & dl1 & Hdl0 & Hdl1 & Hget1 & Hoth1).
@@ -526,6 +561,7 @@ Definition alloc_valid (modes dims ordering : list Z) : Prop :=
 Definition allocate_spec : Prop := forall modes dims ordering k m,
   alloc_valid modes dims ordering ->
   lookup (m_next m) (m_wkd m) = None -> (forall s', ~ In (s', m_next_meta m) (m_wkd m)) ->
+  ~ In (m_next m) (map fst (m_structs m)) ->
   runs_to (allocate_taco_structure (ints modes) (ints dims) (ints ordering)) k m
           (fun m' r => r = PStruct (m_next m) /\ allocated modes m m').
 
@@ -556,58 +592,200 @@ Proof. induction l; simpl; auto. Qed.
 Lemma update_fresh : forall A (s : nat) (x : A) l, ~ In s (map fst l) -> update s x l = l.
 Proof. intros. unfold update. now apply map_update_fresh. Qed.
 
-Theorem gen_call_equiv : allocate_spec ->
-  forall nm modes dims ordering out formats bound args ins inf sh k m,
+(* ------------------------------------------------------------------ allocate_taco_structure *)
+
+Lemma mfold_id : forall (F : unit -> pv -> M unit) l,
+  (forall x, In x l -> forall k m, F tt x k m = (m, Ret tt)) -> forall k m, mfold F l tt k m = (m, Ret tt).
+Proof.
+  induction l as [|x r IH]; intros H k m; simpl; [reflexivity|].
+  rewrite (H x (or_introl eq_refl)). apply IH. intros. apply H. now right.
+Qed.
+
+Definition alloc_body_ok (F : pv * pv * pv * pv -> pv -> M (pv * pv * pv * pv)) : Prop :=
+  forall z ca a1 a2 a3 k m, z = 0%Z \/ z = 1%Z ->
+    F (ca, PList a1, PList a2, PList a3) (PInt z) k m =
+    (with_next m (m_next m) (S (m_next_meta m)),
+     Ret (PList (arrl z), PList (a1 ++ [PNewMeta (m_next_meta m) (arrl z)]), PList (a2 ++ [PList (arrl z)]),
+          PList (a3 ++ [PNewMeta (m_next_meta m) (arrl z)]))).
+
+Lemma alloc_loop : forall F, alloc_body_ok F ->
+  forall modes, Forall (fun z => z = 0%Z \/ z = 1%Z) modes ->
+  forall ca a1 a2 a3 k m, exists ca',
+    mfold F (map PInt modes) (ca, PList a1, PList a2, PList a3) k m =
+    (with_next m (m_next m) (List.length modes + m_next_meta m),
+     Ret (ca', PList (a1 ++ metas (m_next_meta m) modes), PList (a2 ++ map (fun z => PList (arrl z)) modes),
+          PList (a3 ++ metas (m_next_meta m) modes))).
+Proof.
+  intros F HF. induction 1 as [|z r Hz Hr IH]; intros ca a1 a2 a3 k m.
+  - exists ca. cbn [map mfold List.length Nat.add]. unfold metas. rewrite !app_nil_r. destruct m; reflexivity.
+  - cbn [map mfold]. cbn [mbind]. rewrite (HF z ca a1 a2 a3 k m Hz).
+    destruct (IH (PList (arrl z)) (a1 ++ [PNewMeta (m_next_meta m) (arrl z)]) (a2 ++ [PList (arrl z)])
+                 (a3 ++ [PNewMeta (m_next_meta m) (arrl z)]) k (with_next m (m_next m) (S (m_next_meta m)))) as (ca' & E).
+    exists ca'. rewrite E. cbn [m_next m_next_meta with_next List.length].
+    rewrite <- !app_assoc. cbn [app]. change (metas (m_next_meta m) (z :: r)) with (PNewMeta (m_next_meta m) (arrl z) :: metas (S (m_next_meta m)) r).
+    f_equal. unfold with_next. cbn. f_equal. lia.
+Qed.
+
+Lemma lvls_fields : forall modes n, arr_addrs (flat_map snd (lvls n modes)) = [].
+Proof. induction modes as [|z r IH]; intros; simpl; [reflexivity|]. rewrite arr_addrs_app, IH. unfold ptrl. destruct (Z.eqb z 0); reflexivity. Qed.
+
+Lemma arrl_owned : forall modes, flat_map owned (map (fun z => PList (arrl z)) modes) = [].
+Proof. induction modes as [|z r IH]; simpl; [reflexivity|]. rewrite IH. unfold arrl. destruct (Z.eqb z 0); reflexivity. Qed.
+
+Lemma lvls_wf : forall modes, Forall (fun z => z = 0%Z \/ z = 1%Z) modes ->
+  forall n, wf_levels modes (lvls n modes) (map (fun z => PList (arrl z)) modes).
+Proof.
+  induction 1 as [|z r Hz Hr IH]; intros n; simpl; [constructor|].
+  destruct Hz; subst z; cbn; constructor; apply IH.
+Qed.
+
+Theorem gen_allocate_spec : allocate_spec.
+Proof.
+  intros modes dims ordering k m (Hl1 & Hl2 & Hmodes & Hdims & Hperm) Hfw Hdf Hfs.
+  unfold allocate_taco_structure, ints.
+  repeat rstep.
+  rewrite ?map_length, Hl1, Hl2, ?Z.eqb_refl. cbn [negb andb].
+  repeat rstep.
+  eapply runs_bind.
+  { apply mfold_id. intros x Hx k' m'. apply in_map_iff in Hx. destruct Hx as (z & <- & Hz).
+    destruct (proj1 (Forall_forall _ _) Hmodes z Hz); subst z; repeat mstep; reflexivity. }
+  repeat rstep.
+  eapply runs_bind.
+  { apply mfold_id. intros x Hx k' m'. apply in_map_iff in Hx. destruct Hx as (z & <- & Hz).
+    assert (Hlt : Z.ltb z 0 = false) by (apply Z.ltb_ge; exact (proj1 (Forall_forall _ _) Hdims z Hz)).
+    repeat mstep. rewrite Hlt. repeat mstep. reflexivity. }
+  repeat rstep.
+  eapply runs_bind.
+  { unfold py_set_eq. rewrite ints_of_map, ints_of_map_nat. reflexivity. }
+  rewrite Nat2Z.id, map_length, Hperm. cbn [negb].
+  repeat rstep.
+  (* name the state before the level loop: only these facts about it are used below (keeps the terms small) *)
+  match goal with |- runs_to _ _ ?M _ => remember M as M1 eqn:HM1 end.
+  assert (E_next : m_next M1 = S (m_next m)) by (subst M1; reflexivity).
+  assert (E_meta : m_next_meta M1 = S (S (S (S (m_next_meta m))))) by (subst M1; reflexivity).
+  assert (E_tensors : m_tensors M1 = m_tensors m) by (subst M1; reflexivity).
+  assert (E_heap : m_heap M1 = m_heap m) by (subst M1; reflexivity).
+  assert (E_frees : m_frees M1 = m_frees m) by (subst M1; reflexivity).
+  assert (E_wkd : m_wkd M1 = m_wkd m) by (subst M1; reflexivity).
+  assert (E_structs : exists d0, m_structs M1 = (m_next m, d0) :: m_structs m /\ sd_modes d0 = modes /\
+                                 sd_order d0 = Z.of_nat (List.length modes)).
+  { subst M1. proj. rewrite ?update_cons_same, ?(update_fresh _ _ _ _ Hfs). eexists. split; [reflexivity|].
+    split; [reflexivity|]. cbn [sd_order]. now rewrite map_length. }
+  assert (E_dicts : exists L0, lookup (m_next_meta m) (m_dicts M1) = Some L0 /\ sdict_get "vals" L0 = None /\
+                               sdict_get "indices" L0 = None /\ sdict_get "*indices" L0 = None /\
+                               sdict_get "**indices" L0 = None).
+  { subst M1. proj. cbn [lookup fst]. rewrite Nat.eqb_refl. eexists. split; [reflexivity|]. repeat split. }
+  assert (E_other : forall h', h' <> m_next_meta m -> lookup h' (m_dicts M1) = lookup h' (m_dicts m)).
+  { subst M1. proj. intros h' Hh. cbn [lookup fst].
+    destruct (Nat.eqb (m_next_meta m) h') eqn:E; [apply Nat.eqb_eq in E; congruence|].
+    rewrite !lookup_update_other by auto. reflexivity. }
+  clear HM1.
+  destruct E_structs as (d0 & HS1 & Hd0m & Hd0o). destruct E_dicts as (L0 & HD1 & HL0v & HL0i & HL0s & HL0ss).
+  assert (HS1' : lookup (m_next m) (m_structs M1) = Some d0) by (rewrite HS1; cbn [lookup fst]; now rewrite Nat.eqb_refl).
+  assert (HW1 : lookup (m_next m) (m_wkd M1) = None) by (now rewrite E_wkd).
+  match goal with |- runs_to (mbind (mfold ?F _ _) _) _ _ _ => assert (HF : alloc_body_ok F) end.
+  { intros z ca a1 a2 a3 k' m' [Hz|Hz]; subst z; repeat mstep; reflexivity. }
+  match goal with |- runs_to (mbind (mfold ?F _ ?acc) _) _ ?M _ =>
+    destruct (alloc_loop F HF modes Hmodes PUnbound [] [] [] k M) as (ca' & Hloop) end.
+  eapply runs_bind; [exact Hloop|]. clear Hloop HF.
+  cbn [app].
+  repeat rstep.
+  apply runs_ret. split; [reflexivity|].
+  constructor; proj; try assumption.
+  eexists. exists (m_next_meta m). eexists. exists (map (fun z => PList (arrl z)) modes).
+  rewrite HS1, E_wkd, ?update_cons_same, ?(update_fresh _ _ _ _ Hfs).
+  split; [reflexivity|]. split; [reflexivity|].
+  split; [erewrite lookup_update_same by (repeat first [eassumption | eapply lookup_update_same]); reflexivity|].
+  split; [intros h' Hh; rewrite !lookup_update_other by auto; now apply E_other|].
+  split; [exact Hdf|]. split; [exact Hd0m|]. split; [cbn [sd_order]; first [exact Hd0o | reflexivity]|].
+  split; [unfold sd_fields; cbn [sd_levels sd_vals]; rewrite arr_addrs_app, lvls_fields; reflexivity|].
+  split; [rewrite !sdict_get_set_other by discriminate; exact HL0v|].
+  split; [apply sdict_get_set_same|].
+  split; [apply arrl_owned|]. cbn [sd_levels]. apply lvls_wf. exact Hmodes.
+Qed.
+
+(* outcomes with exceptions: x ends in a state / result satisfying Q *)
+Definition ends_in {A} (x : M A) (k : kenv) (m : mstate) (Q : mstate -> res A -> Prop) : Prop :=
+  exists m' r, x k m = (m', r) /\ Q m' r.
+
+Lemma ends_bind : forall A B (x : M A) (f : A -> M B) k m m1 a Q,
+  x k m = (m1, Ret a) -> ends_in (f a) k m1 Q -> ends_in (mbind x f) k m Q.
+Proof. intros A B x f k m m1 a Q H (m' & b & Hr & HQ). exists m', b. split; auto. simpl. rewrite H. exact Hr. Qed.
+
+Lemma ends_assoc : forall A B C (x : M A) (g : A -> M B) (f : B -> M C) k m Q,
+  ends_in (mbind x (fun a => mbind (g a) f)) k m Q -> ends_in (mbind (mbind x g) f) k m Q.
+Proof. intros A B C x g f k m Q (m' & b & Hr & HQ). exists m', b. split; auto. rewrite mbind_assoc. exact Hr. Qed.
+
+Lemma ends_ret : forall A (a : A) k m (Q : mstate -> res A -> Prop), Q m (Ret a) -> ends_in (ret a) k m Q.
+Proof. intros. exists m, (Ret a). split; auto. Qed.
+
+Lemma ends_raise_bind : forall A B e (f : A -> M B) k m (Q : mstate -> res B -> Prop),
+  Q m (Raise e) -> ends_in (mbind (raise e) f) k m Q.
+Proof. intros. exists m, (Raise e). split; auto. Qed.
+
+Ltac estep :=
+  cbv beta iota;
+  match goal with
+  | |- ends_in (mbind (mbind _ _) _) _ _ _ => eapply ends_assoc
+  | |- ends_in (mbind (if _ then _ else _) _) _ _ _ => fail 1 "if"
+  | |- ends_in (mbind (mfold _ _ _) _) _ _ _ => fail 1 "loop"
+  | |- ends_in (mbind _ _) _ _ _ => eapply ends_bind; [solve [op_solve] | ]
+  end.
+
+(* the whole of TensorMethod.__call__ after the validation, whatever the kernel returns: the output is allocated,
+   wrapped, the kernel runs, OWNERSHIP IS TAKEN, and only then the return value is tested *)
+Lemma gen_call_core : allocate_spec ->
+  forall nm modes dims ordering out formats bound args sh k m,
   alloc_valid modes dims ordering ->
   Inv (abs nm m) -> wkd_ok m -> (forall s', ~ In (s', m_next_meta m) (m_wkd m)) ->
   Forall2 (arg_of ((S (m_next m), m_next m) :: m_tensors m)
                   (all_arguments out (PTensor (S (m_next m))) bound)) (map fst formats) args ->
   nth_error args (k_out k) = Some (m_next m) ->
-  k_ret k = 0%Z ->
-  input_fields (abs nm m) ins = Some inf ->
   (forall d, sd_modes d = modes -> kernel_blocks (k_empty k) d (S (S (m_next m))) = shape_blocks sh) ->
   exists m',
     TensorMethod_call_tail (PDictV bound) (ints dims) (PList (map PMode modes)) (ints ordering) (PStr out)
-                           (PDictV formats) k m = (m', Ret (PTensor (S (m_next m)))) /\
-    eval_call (abs nm m) ins sh = (abs nm m', S (m_next m), [], Ok) /\
+                           (PDictV formats) k m
+      = (m', if Z.eqb (k_ret k) 0 then Ret (PTensor (S (m_next m))) else Raise RuntimeError) /\
+    add_tensor (abs nm m) HGc Kernel (shape_blocks sh) = abs nm m' /\
     m_frees m' = m_frees m.
 Proof.
-  intros Halloc nm modes dims ordering out formats bound args ins inf sh k m Hval I Hwk Hdf Hargs Hout Hret Hinf Hsh.
-  rewrite (eval_call_ok _ _ _ _ I Hinf).
-  cut (runs_to (TensorMethod_call_tail (PDictV bound) (ints dims) (PList (map PMode modes)) (ints ordering)
+  intros Halloc nm modes dims ordering out formats bound args sh k m Hval I Hwk Hdf Hargs Hout Hsh.
+  cut (ends_in (TensorMethod_call_tail (PDictV bound) (ints dims) (PList (map PMode modes)) (ints ordering)
                   (PStr out) (PDictV formats)) k m
-               (fun m' r => r = PTensor (S (m_next m)) /\
+               (fun m' r => r = (if Z.eqb (k_ret k) 0 then Ret (PTensor (S (m_next m))) else Raise RuntimeError) /\
                             add_tensor (abs nm m) HGc Kernel (shape_blocks sh) = abs nm m' /\ m_frees m' = m_frees m)).
-  { intros (m' & r & Hr & -> & He & Hf). exists m'. rewrite He. auto. }
+  { intros (m' & r & Hr & -> & He & Hf). exists m'. auto. }
   unfold TensorMethod_call_tail.
-  repeat rstep.
-  match goal with |- runs_to (mbind (mmap ?G _) _) _ _ _ =>
-    eapply runs_bind; [apply (mmap_cint G); intros; repeat mstep; reflexivity|] end.
-  repeat rstep.
+  repeat estep.
+  match goal with |- ends_in (mbind (mmap ?G _) _) _ _ _ =>
+    eapply ends_bind; [apply (mmap_cint G); intros; repeat mstep; reflexivity|] end.
+  repeat estep.
   assert (Hfw : lookup (m_next m) (m_wkd m) = None).
   { pose proof (fresh_wkd _ I) as F. cbn [abs wkd next] in F. unfold keys in F. rewrite map_map in F.
     apply lookup_None. exact F. }
-  destruct (Halloc modes dims ordering k m Hval Hfw Hdf) as (m1 & r1 & Hr1 & -> & A).
-  eapply runs_bind; [exact Hr1|]. clear Hr1.
+  assert (Hfst : ~ In (m_next m) (map fst (m_structs m))).
+  { pose proof (fresh_struct _ I) as F. cbn [abs structs next] in F. unfold keys in F. rewrite map_map in F. exact F. }
+  destruct (Halloc modes dims ordering k m Hval Hfw Hdf Hfst) as (m1 & r1 & Hr1 & -> & A).
+  eapply ends_bind; [exact Hr1|]. clear Hr1.
   destruct (al_rest _ _ _ A) as (d & h & dl & lv & Hst & Hwkd & Hdl & Hoth & Hfresh & Hmodes & Hord & Hfields & Hvals & Hind & Hown & Wf).
-  repeat rstep.
+  repeat estep.
   rewrite (al_next _ _ _ A), (al_tensors _ _ _ A).
-  match goal with |- runs_to _ _ ?M _ => remember M as M2 eqn:HM2 end.
+  match goal with |- ends_in _ _ ?M _ => remember M as M2 eqn:HM2 end.
   assert (HT : m_tensors M2 = (S (m_next m), m_next m) :: m_tensors m) by (subst M2; reflexivity).
   replace (map (fun p : string * pv => PStr (fst p)) formats) with (map PStr (map fst formats)) by (now rewrite map_map).
-  match goal with |- runs_to (mbind (mmap ?G _) _) _ _ _ =>
-    eapply runs_bind; [eapply (mmap_args _ _ G k M2 HT); [|exact Hargs]|] end.
+  match goal with |- ends_in (mbind (mmap ?G _) _) _ _ _ =>
+    eapply ends_bind; [eapply (mmap_args _ _ G k M2 HT); [|exact Hargs]|] end.
   { intros n a (w & Hd & Hl). unfold all_arguments in Hd. erewrite mbind_ret by op_solve.
     unfold tensor_cffi. cbn. rewrite HT, Hl. reflexivity. }
-  repeat rstep.
+  repeat estep.
   assert (HS2 : m_structs M2 = (m_next m, d) :: m_structs m) by (subst M2; exact Hst).
   assert (HN2 : m_next M2 = S (S (m_next m))) by (subst M2; reflexivity).
   destruct (kernel_struct (k_empty k) d (S (S (m_next m)))) as [d' a'] eqn:EK.
-  eapply runs_bind.
+  eapply ends_bind.
   { unfold call_kernel. rewrite all_structs_map. cbn. rewrite (map_nth_error PStruct _ _ Hout). cbn.
     rewrite HS2. cbn [lookup fst]. rewrite Nat.eqb_refl. cbn. rewrite HN2, EK. cbn. reflexivity. }
-  cbv beta iota. rstep.
-  match goal with |- runs_to _ _ ?M _ => remember M as M3 eqn:HM3 end.
+  cbv beta iota. estep.
+  match goal with |- ends_in _ _ ?M _ => remember M as M3 eqn:HM3 end.
   destruct (kernel_struct_spec (k_empty k) d lv (S (S (m_next m)))) as (W' & Ho' & Hm' & Hf' & Hlt').
   { now rewrite Hmodes. }
   rewrite EK in *. cbn [fst snd] in *.
@@ -625,8 +803,7 @@ Proof.
   { rewrite HS3. cbn [lookup fst]. now rewrite Nat.eqb_refl. }
   { now rewrite HD3. }
   { split; [rewrite Ho', Hm', Hmodes; exact Hord|]. exists lv. split; [exact Hind|]. exact W'. }
-  eapply runs_bind; [exact Hr4|].
-  repeat rstep. rewrite Hret. cbn [Z.eqb negb]. repeat rstep. apply runs_ret.
+  eapply ends_bind; [exact Hr4|].
   assert (Hhe : holder_entries dl = []).
   { unfold holder_entries. now rewrite Hind, Hvals, owned_PList, Hown. }
   assert (HH3 : m_heap M3 = m_heap m ++ map (fun x => (x, {| b_kind := Kernel; b_status := Live |}))
@@ -635,7 +812,8 @@ Proof.
   assert (HF3 : m_frees M3 = m_frees m) by (subst M3 M2; cbn; apply A).
   assert (HT3 : m_tensors M3 = (S (m_next m), m_next m) :: m_tensors m) by (subst M3; exact HT).
   assert (HX3 : m_next M3 = a') by (subst M3; reflexivity).
-  split; [reflexivity|]. split.
+  assert (Hfinal : add_tensor (abs nm m) HGc Kernel (shape_blocks sh) = abs nm m4 /\ m_frees m4 = m_frees m).
+  { split.
   - symmetry. apply state_eq; cbn [abs add_tensor names tensors structs wkd heap next]; try reflexivity.
     + now rewrite (tk_tensors _ _ _ _ _ _ T), HT3.
     + rewrite (tk_structs _ _ _ _ _ _ T), HS3. cbn [map fst snd]. now rewrite Hf', Hn.
@@ -648,24 +826,62 @@ Proof.
         unfold holder_of. rewrite (tk_other _ _ _ _ _ _ T), HD3, Hoth by auto. reflexivity.
     + rewrite (tk_heap _ _ _ _ _ _ T), Hhe. cbn [map]. now rewrite release_all_nil, HH3.
     + rewrite (tk_next _ _ _ _ _ _ T), HX3. exact Ha'.
-  - rewrite (tk_frees _ _ _ _ _ _ T), Hhe, HF3. cbn. now rewrite app_nil_r.
+  - rewrite (tk_frees _ _ _ _ _ _ T), Hhe, HF3. cbn. now rewrite app_nil_r. }
+  repeat estep.
+  destruct (Z.eqb (k_ret k) 0); cbn [negb].
+  - repeat estep. apply ends_ret. split; [reflexivity|exact Hfinal].
+  - apply ends_raise_bind. split; [reflexivity|exact Hfinal].
 Qed.
 
-(* the specification is satisfiable: an instance checked by computation (order 2, dense then compressed,
-   mode_ordering (1, 0)); the self-check of tools/props/_tie.py compares the regenerated function with the real one
-   on generated arguments of orders 0..3 at every run *)
-Example allocate_spec_instance : forall k,
-  runs_to (allocate_taco_structure (ints [0; 1]%Z) (ints [3; 4]%Z) (ints [1; 0]%Z)) k m_init
-          (fun m' r => r = PStruct 0 /\ allocated [0; 1]%Z m_init m').
+
+Theorem gen_call_equiv : allocate_spec ->
+  forall nm modes dims ordering out formats bound args ins inf sh k m,
+  alloc_valid modes dims ordering ->
+  Inv (abs nm m) -> wkd_ok m -> (forall s', ~ In (s', m_next_meta m) (m_wkd m)) ->
+  Forall2 (arg_of ((S (m_next m), m_next m) :: m_tensors m)
+                  (all_arguments out (PTensor (S (m_next m))) bound)) (map fst formats) args ->
+  nth_error args (k_out k) = Some (m_next m) ->
+  k_ret k = 0%Z ->
+  input_fields (abs nm m) ins = Some inf ->
+  (forall d, sd_modes d = modes -> kernel_blocks (k_empty k) d (S (S (m_next m))) = shape_blocks sh) ->
+  exists m',
+    TensorMethod_call_tail (PDictV bound) (ints dims) (PList (map PMode modes)) (ints ordering) (PStr out)
+                           (PDictV formats) k m = (m', Ret (PTensor (S (m_next m)))) /\
+    eval_call (abs nm m) ins sh = (abs nm m', S (m_next m), [], Ok) /\
+    m_frees m' = m_frees m.
 Proof.
-  intros k. eexists. eexists. split; [vm_compute; reflexivity|]. split; [reflexivity|].
-  constructor; try reflexivity.
-  eexists. eexists. eexists. eexists.
-  split; [reflexivity|]. split; [reflexivity|]. split; [reflexivity|].
-  split; [intros h' Hh; cbn; destruct h'; [congruence|reflexivity]|].
-  split; [intros s' []|].
-  repeat (split; [reflexivity|]).
-  repeat constructor.
+  intros Halloc nm modes dims ordering out formats bound args ins inf sh k m Hval I Hwk Hdf Hargs Hout Hret Hinf Hsh.
+  destruct (gen_call_core Halloc nm modes dims ordering out formats bound args sh k m Hval I Hwk Hdf Hargs Hout Hsh)
+    as (m' & Hr & He & Hf).
+  exists m'. rewrite Hret in Hr. split; [exact Hr|]. split; [|exact Hf].
+  rewrite (eval_call_ok _ _ _ _ I Hinf), He. reflexivity.
+Qed.
+
+(* the kernel returns non-zero: RuntimeError is raised AFTER take_ownership_of_arrays.  The machine state is the one
+   of a successful call (what Ownership.v sees: eval_call's Ok state): the new structure's holder owns every block the
+   kernel allocated; only no name is bound to the new Tensor, so the reference-counting cascade (Ownership.sweep)
+   releases wrapper, structure, holder and calls free exactly once per block -- nothing leaks on this path. *)
+Theorem gen_call_runtime_error : allocate_spec ->
+  forall nm modes dims ordering out formats bound args ins inf sh k m,
+  alloc_valid modes dims ordering ->
+  Inv (abs nm m) -> wkd_ok m -> (forall s', ~ In (s', m_next_meta m) (m_wkd m)) ->
+  Forall2 (arg_of ((S (m_next m), m_next m) :: m_tensors m)
+                  (all_arguments out (PTensor (S (m_next m))) bound)) (map fst formats) args ->
+  nth_error args (k_out k) = Some (m_next m) ->
+  k_ret k <> 0%Z ->
+  input_fields (abs nm m) ins = Some inf ->
+  (forall d, sd_modes d = modes -> kernel_blocks (k_empty k) d (S (S (m_next m))) = shape_blocks sh) ->
+  exists m',
+    TensorMethod_call_tail (PDictV bound) (ints dims) (PList (map PMode modes)) (ints ordering) (PStr out)
+                           (PDictV formats) k m = (m', Raise RuntimeError) /\
+    eval_call (abs nm m) ins sh = (abs nm m', S (m_next m), [], Ok) /\
+    m_frees m' = m_frees m.
+Proof.
+  intros Halloc nm modes dims ordering out formats bound args ins inf sh k m Hval I Hwk Hdf Hargs Hout Hret Hinf Hsh.
+  destruct (gen_call_core Halloc nm modes dims ordering out formats bound args sh k m Hval I Hwk Hdf Hargs Hout Hsh)
+    as (m' & Hr & He & Hf).
+  exists m'. apply Z.eqb_neq in Hret. rewrite Hret in Hr. split; [exact Hr|]. split; [|exact Hf].
+  rewrite (eval_call_ok _ _ _ _ I Hinf), He. reflexivity.
 Qed.
 
 (* C13_unique_owner, holder clause, on the regenerated take_ownership_of_arrays: afterwards the holder's entries own
@@ -716,6 +932,321 @@ Proof.
   exists m'. split; [exact Hr|]. split; [exact Hf|].
   pose proof (eval_preserves_existing eager ops ins sh) as P. cbv zeta in P.
   rewrite <- Habs, He in P. tauto.
+Qed.
+
+(* the same two theorems without hypothesis on allocate_taco_structure *)
+Definition gen_call_equiv_full := gen_call_equiv gen_allocate_spec.
+Definition gen_eval_preserves_existing_full := gen_eval_preserves_existing gen_allocate_spec.
+Definition gen_call_runtime_error_full := gen_call_runtime_error gen_allocate_spec.
+
+(* ------------------------------------------------------------------ taco_structure_to_cffi *)
+
+Lemma update_update : forall A h (x y : A) l, update h x (update h y l) = update h x l.
+Proof.
+  intros. unfold update. rewrite map_map. apply map_ext. intros [k v]. simpl.
+  destruct (Nat.eqb k h) eqn:E; simpl; now rewrite E.
+Qed.
+
+Definition new_blocks (a n : nat) : list (addr * block) :=
+  map (fun x => (x, {| b_kind := CffiNew; b_status := Live |})) (seq a n).
+
+Lemma new_blocks_app : forall a n1 n2, new_blocks a n1 ++ new_blocks (a + n1) n2 = new_blocks a (n1 + n2).
+Proof. intros. unfold new_blocks. now rewrite seq_app, map_app. Qed.
+
+Definition set_levels (d : sdesc) (ls : list (ptr * list ptr)) : sdesc :=
+  {| sd_order := sd_order d; sd_dims_p := sd_dims_p d; sd_ordering_p := sd_ordering_p d; sd_types_p := sd_types_p d;
+     sd_modes := sd_modes d; sd_indices_p := sd_indices_p d; sd_levels := ls; sd_vals := sd_vals d |}.
+
+(* how the machine evolves while the arrays of structure s / holder h are created from Python data *)
+Record filled (s h : nat) (m m' : mstate) (lv' : list pv) (ls' : list (ptr * list ptr)) (n : nat) : Prop := {
+  fi_tensors : m_tensors m' = m_tensors m;
+  fi_wkd : m_wkd m' = m_wkd m;
+  fi_next : m_next m' = m_next m + n;
+  fi_heap : m_heap m' = m_heap m ++ new_blocks (m_next m) n;
+  fi_frees : m_frees m' = m_frees m;
+  fi_other : forall h', h' <> h -> lookup h' (m_dicts m') = lookup h' (m_dicts m);
+  fi_dict : exists dl dl', lookup h (m_dicts m) = Some dl /\ lookup h (m_dicts m') = Some dl' /\
+            sdict_get "**indices" dl' = Some (PList lv') /\
+            forall k, k <> "**indices" -> sdict_get k dl' = sdict_get k dl;
+  fi_struct : exists d, lookup s (m_structs m) = Some d /\ m_structs m' = update s (set_levels d ls') (m_structs m)
+}.
+
+Lemma lookup_update_some : forall A h (x : A) l y, lookup h l = Some y -> lookup h (update h x l) = Some x.
+Proof. intros. eapply lookup_update_same; eauto. Qed.
+
+Lemma filled_trans : forall s h m1 m2 m3 lv2 lv3 ls2 ls3 n1 n2,
+  filled s h m1 m2 lv2 ls2 n1 -> filled s h m2 m3 lv3 ls3 n2 -> filled s h m1 m3 lv3 ls3 (n1 + n2).
+Proof.
+  intros s h m1 m2 m3 lv2 lv3 ls2 ls3 n1 n2 [] []. constructor; try congruence.
+  - rewrite fi_next1, fi_next0. lia.
+  - rewrite fi_heap1, fi_heap0, fi_next0, <- app_assoc, new_blocks_app. reflexivity.
+  - intros. rewrite fi_other1, fi_other0; auto.
+  - destruct fi_dict0 as (a & b & Ha & Hb & Hc & Hd). destruct fi_dict1 as (a' & b' & Ha' & Hb' & Hc' & Hd').
+    exists a, b'. repeat split; auto. intros. rewrite Hd', <- Hd; auto. congruence.
+  - destruct fi_struct0 as (d & Hd & Hs). destruct fi_struct1 as (d' & Hd' & Hs').
+    exists d. split; [exact Hd|]. rewrite Hs', Hs, update_update.
+    rewrite Hs in Hd'. erewrite lookup_update_same in Hd' by eassumption. inversion Hd'. reflexivity.
+Qed.
+
+(* modes, levels of the structure, "**indices" slot, Python data per level: aligned; the slot owns nothing yet *)
+Inductive fill_levels : list Z -> list (ptr * list ptr) -> list pv -> list pv -> Prop :=
+| fl_nil : fill_levels [] [] [] []
+| fl_dense : forall mr lr xr dr lp, fill_levels mr lr xr dr ->
+    fill_levels (0%Z :: mr) ((lp, []) :: lr) (PList [] :: xr) (PList [] :: dr)
+| fl_sparse : forall mr lr xr dr lp q0 q1 a b pos crd, fill_levels mr lr xr dr -> owned a = [] -> owned b = [] ->
+    fill_levels (1%Z :: mr) ((lp, [q0; q1]) :: lr) (PList [a; b] :: xr) (PList [PList pos; PList crd] :: dr).
+
+Fixpoint fill_lv (a : nat) (ms : list Z) (lv : list pv) : list pv :=
+  match ms, lv with
+  | z :: mr, x :: xr => if Z.eqb z 1 then PList [PNewArr a; PNewArr (S a)] :: fill_lv (S (S a)) mr xr
+                        else x :: fill_lv a mr xr
+  | _, _ => lv
+  end.
+
+Fixpoint fill_ls (a : nat) (ms : list Z) (ls : list (ptr * list ptr)) : list (ptr * list ptr) :=
+  match ms, ls with
+  | z :: mr, (lp, arrs) :: lr => if Z.eqb z 1 then (lp, [Arr a; Arr (S a)]) :: fill_ls (S (S a)) mr lr
+                                 else (lp, arrs) :: fill_ls a mr lr
+  | _, _ => ls
+  end.
+
+Fixpoint nsparse (ms : list Z) : nat :=
+  match ms with [] => 0 | z :: r => (if Z.eqb z 1 then 2 else 0) + nsparse r end.
+
+Fixpoint zipl (ms : list Z) (ds : list pv) : list pv :=
+  match ms, ds with
+  | z :: mr, d :: dr => PList [PInt z; d] :: zipl mr dr
+  | _, _ => []
+  end.
+
+Lemma zip_strict_zipl : forall ms ds, List.length ds = List.length ms -> zip_strict (map PInt ms) ds = Some (zipl ms ds).
+Proof.
+  induction ms; destruct ds; simpl; intros; try discriminate; [reflexivity|].
+  rewrite IHms by lia. reflexivity.
+Qed.
+
+Definition fill_body_ok (s h : nat) (F : pv -> pv -> M pv) : Prop :=
+  (forall i acc k m, exists acc', F acc (PList [PInt (Z.of_nat i); PList [PInt 0; PList []]]) k m = (m, Ret acc')) /\
+  (forall i acc k m d dl lp q0 q1 lv a b pos crd,
+     lookup s (m_structs m) = Some d -> nth_error (sd_levels d) i = Some (lp, [q0; q1]) ->
+     lookup h (m_dicts m) = Some dl -> sdict_get "**indices" dl = Some (PList lv) ->
+     nth_error lv i = Some (PList [a; b]) -> owned a = [] -> owned b = [] ->
+     exists m' acc', F acc (PList [PInt (Z.of_nat i); PList [PInt 1; PList [PList pos; PList crd]]]) k m = (m', Ret acc') /\
+       filled s h m m' (replace_nth i (PList [PNewArr (m_next m); PNewArr (S (m_next m))]) lv)
+              (replace_nth i (lp, [Arr (m_next m); Arr (S (m_next m))]) (sd_levels d)) 2).
+
+Lemma filled_refl : forall s h m d dl lv, lookup s (m_structs m) = Some d -> lookup h (m_dicts m) = Some dl ->
+  sdict_get "**indices" dl = Some (PList lv) -> NoDup (map fst (m_structs m)) ->
+  filled s h m m lv (sd_levels d) 0.
+Proof.
+  intros. constructor; auto.
+  - unfold new_blocks. simpl. now rewrite app_nil_r.
+  - exists dl, dl. auto.
+  - exists d. split; auto. symmetry.
+    replace (set_levels d (sd_levels d)) with d by (destruct d; reflexivity).
+    unfold update. rewrite <- (map_id (m_structs m)) at 2. apply map_ext_in. intros [k v] Hin. simpl.
+    destruct (Nat.eqb k s) eqn:E; [|reflexivity]. apply Nat.eqb_eq in E. subst k.
+    f_equal. apply lookup_In in H. eapply NoDup_keys_unique; eauto.
+Qed.
+
+Lemma keys_update : forall A h (x : A) l, map fst (update h x l) = map fst l.
+Proof. intros. unfold update. rewrite map_map. apply map_ext. intros [k v]. simpl. destruct (Nat.eqb k h); reflexivity. Qed.
+
+Lemma fill_loop : forall s h F, fill_body_ok s h F ->
+  forall ms lsuf suf ds, fill_levels ms lsuf suf ds ->
+  forall k d lpre pre m dl acc,
+    NoDup (map fst (m_structs m)) ->
+    List.length lpre = List.length pre -> sd_levels d = lpre ++ lsuf ->
+    lookup s (m_structs m) = Some d -> lookup h (m_dicts m) = Some dl ->
+    sdict_get "**indices" dl = Some (PList (pre ++ suf)) ->
+    exists m' acc', mfold F (enum_from (List.length pre) (zipl ms ds)) acc k m = (m', Ret acc') /\
+       filled s h m m' (pre ++ fill_lv (m_next m) ms suf) (lpre ++ fill_ls (m_next m) ms lsuf) (nsparse ms).
+Proof.
+  intros s h F [Hd Hs]. induction 1; intros k d lpre pre m dl acc Hnd Hlen Hlv Hst Hdi Hsl.
+  - exists m, acc. split; [reflexivity|]. cbn [fill_lv fill_ls nsparse]. rewrite <- Hlv. eapply filled_refl; eauto.
+  - cbn [zipl enum_from mfold]. destruct (Hd (List.length pre) acc k m) as (acc1 & Hr1). cbn [mbind]. rewrite Hr1.
+    destruct (IHfill_levels k d (lpre ++ [(lp, [])]) (pre ++ [PList []]) m dl acc1) as (m' & acc' & Hr & He); auto.
+    + rewrite !app_length. simpl. lia.
+    + now rewrite <- app_assoc.
+    + now rewrite <- app_assoc.
+    + exists m', acc'. rewrite app_length in Hr. simpl in Hr. rewrite Nat.add_1_r in Hr. split; [exact Hr|].
+      rewrite <- !app_assoc in He. exact He.
+  - cbn [zipl enum_from mfold].
+    destruct (Hs (List.length pre) acc k m d dl lp q0 q1 (pre ++ PList [a; b] :: xr) a b pos crd) as (m1 & acc1 & Hr1 & He1); auto.
+    { rewrite Hlv, <- Hlen. apply nth_error_app_len. }
+    { apply nth_error_app_len. }
+    cbn [mbind]. rewrite Hr1.
+    rewrite replace_nth_app_len in He1. rewrite Hlv, <- Hlen, replace_nth_app_len in He1.
+    destruct (fi_dict _ _ _ _ _ _ _ He1) as (dl0 & dl1 & Hdl0 & Hdl1 & Hget & _).
+    destruct (fi_struct _ _ _ _ _ _ _ He1) as (d0 & Hd0 & Hs1).
+    assert (d0 = d) by congruence. subst d0.
+    set (d1 := set_levels d (lpre ++ (lp, [Arr (m_next m); Arr (S (m_next m))]) :: lr)) in *.
+    destruct (IHfill_levels k d1 (lpre ++ [(lp, [Arr (m_next m); Arr (S (m_next m))])])
+                (pre ++ [PList [PNewArr (m_next m); PNewArr (S (m_next m))]]) m1 dl1 acc1) as (m' & acc' & Hr & He); auto.
+    + now rewrite Hs1, keys_update.
+    + rewrite !app_length. simpl. lia.
+    + subst d1. cbn [sd_levels set_levels]. now rewrite <- app_assoc.
+    + rewrite Hs1. eapply lookup_update_same; eauto.
+    + now rewrite <- app_assoc.
+    + exists m', acc'. rewrite app_length in Hr. simpl in Hr. rewrite Nat.add_1_r in Hr. split; [exact Hr|].
+      rewrite <- !app_assoc in He. cbn [app] in He.
+      rewrite (fi_next _ _ _ _ _ _ _ He1) in He. replace (m_next m + 2) with (S (S (m_next m))) in He by lia.
+      cbn [fill_lv fill_ls nsparse Z.eqb Pos.eqb].
+      eapply filled_trans; eauto.
+Qed.
+
+Lemma fill_ls_fields : forall ms ls lv ds, fill_levels ms ls lv ds -> forall a,
+  arr_addrs (flat_map snd (fill_ls a ms ls)) = seq a (nsparse ms).
+Proof.
+  induction 1; intros a0; cbn [fill_ls nsparse Z.eqb Pos.eqb flat_map snd app arr_addrs]; auto.
+  now rewrite IHfill_levels.
+Qed.
+
+Lemma fill_lv_owned : forall ms ls lv ds, fill_levels ms ls lv ds -> forall a,
+  flat_map owned (fill_lv a ms lv) = map HNew (seq a (nsparse ms)).
+Proof.
+  induction 1; intros a0; cbn [fill_lv nsparse Z.eqb Pos.eqb flat_map]; auto.
+  - rewrite IHfill_levels. reflexivity.
+  - rewrite IHfill_levels. reflexivity.
+Qed.
+
+Definition data_shape (modes : list Z) (datas : list pv) : Prop :=
+  Forall2 (fun z dt => (z = 0%Z /\ dt = PList []) \/ (z = 1%Z /\ exists pos crd, dt = PList [PList pos; PList crd]))
+          modes datas.
+
+Lemma mk_fill_levels : forall ms ls lv, wf_levels ms ls lv -> flat_map owned lv = [] ->
+  forall ds, data_shape ms ds -> fill_levels ms ls lv ds.
+Proof.
+  induction 1; intros Ho ds Hs; inversion Hs as [|z dt mr' dr' Hhd Htl]; subst.
+  - constructor.
+  - destruct Hhd as [[_ ->]|[E _]]; [|discriminate]. constructor. apply IHwf_levels; auto.
+  - destruct Hhd as [[E _]|[_ (pos & crd & ->)]]; [discriminate|].
+    cbn [flat_map] in Ho. apply app_eq_nil in Ho. destruct Ho as [Ho1 Ho2].
+    rewrite owned_PList in Ho1. cbn [flat_map] in Ho1. rewrite app_nil_r in Ho1.
+    apply app_eq_nil in Ho1. destruct Ho1.
+    constructor; auto.
+Qed.
+
+Lemma lookup_None_notin : forall A k (l : list (nat * A)), lookup k l = None -> ~ In k (map fst l).
+Proof.
+  induction l as [|[k' v] r IH]; simpl; intros H; [tauto|].
+  destruct (Nat.eqb k' k) eqn:E; [discriminate|]. apply Nat.eqb_neq in E. intros [|]; [congruence|]. now apply IH.
+Qed.
+
+Lemma data_shape_length : forall ms ds, data_shape ms ds -> List.length ds = List.length ms.
+Proof. induction 1; simpl; auto. Qed.
+
+(* taco_structure_to_cffi (Tensor.from_*, __setstate__) performs Ownership.fill_from_python on the structure that its
+   call of allocate_taco_structure has created *)
+Theorem gen_fill_equiv : forall nm modes dims ordering datas vals k m,
+  alloc_valid modes dims ordering -> data_shape modes datas ->
+  lookup (m_next m) (m_wkd m) = None -> (forall s', ~ In (s', m_next_meta m) (m_wkd m)) ->
+  NoDup (map fst (m_structs m)) -> ~ In (m_next m) (map fst (m_structs m)) ->
+  exists m1 m',
+    allocate_taco_structure (ints modes) (ints dims) (ints ordering) k m = (m1, Ret (PStruct (m_next m))) /\
+    allocated modes m m1 /\
+    taco_structure_to_cffi (PList datas) (PList vals) (ints modes) (ints dims) (ints ordering) None k m
+      = (m', Ret (PStruct (m_next m))) /\
+    abs nm m' = fill_from_python (abs nm m1) (m_next m) (nsparse modes + 1) /\
+    m_frees m' = m_frees m.
+Proof.
+  intros nm modes dims ordering datas vals k m Hval Hshape Hfw Hdf Hnd Hfs.
+  destruct (gen_allocate_spec modes dims ordering k m Hval Hfw Hdf Hfs) as (m1 & r1 & Hr1 & -> & A).
+  exists m1.
+  cut (runs_to (taco_structure_to_cffi (PList datas) (PList vals) (ints modes) (ints dims) (ints ordering) None) k m
+         (fun m' r => r = PStruct (m_next m) /\ abs nm m' = fill_from_python (abs nm m1) (m_next m) (nsparse modes + 1) /\
+                      m_frees m' = m_frees m)).
+  { intros (m' & r & Hr & -> & He & Hf). exists m'. auto. }
+  unfold taco_structure_to_cffi.
+  eapply runs_bind; [exact Hr1|]. clear Hr1.
+  destruct (al_rest _ _ _ A) as (d & h & dl & lv & Hst & Hwkd & Hdl & Hoth & Hfresh & Hmodes & Hord & Hfields & Hvals & Hind & Hown & Wf).
+  assert (HW : lookup (m_next m) (m_wkd m1) = Some h) by (rewrite Hwkd; cbn [lookup fst]; now rewrite Nat.eqb_refl).
+  assert (HS : lookup (m_next m) (m_structs m1) = Some d) by (rewrite Hst; cbn [lookup fst]; now rewrite Nat.eqb_refl).
+  repeat rstep.
+  eapply runs_bind.
+  { unfold py_zip_strict, ints. cbn. rewrite (zip_strict_zipl _ _ (data_shape_length _ _ Hshape)). reflexivity. }
+  repeat rstep.
+  match goal with |- runs_to (mbind (mfold ?F _ _) _) _ _ _ => assert (HF : fill_body_ok (m_next m) h F) end.
+  { split.
+    - intros. eexists. repeat mstep. reflexivity.
+    - intros i acc k0 m0 d0 dl0 lp q0 q1 lv0 a b pos crd Hst0 Hlev Hdi Hsl Hlv0 Hoa Hob.
+      assert (Hlt : Nat.ltb i (List.length (sd_levels d0)) = true)
+        by (apply Nat.ltb_lt; apply nth_error_Some; congruence).
+      eexists. eexists. split. { repeat (repeat mstep; cbn [mfold]). reflexivity. }
+      rewrite ?replace_nth_twice. constructor; proj; rewrite ?Hoa, ?Hob; cbn [map gc_frees flat_map];
+        rewrite ?release_all_nil, ?app_nil_r; try reflexivity; try lia.
+      all: first
+        [ solve [unfold new_blocks; cbn [seq map]; now rewrite <- app_assoc]
+        | solve [intros; rewrite ?lookup_update_other by auto; reflexivity]
+        | solve [exists dl0; eexists; split; [eassumption|]; split; [|split];
+                 [ erewrite lookup_update_same; [reflexivity|]; erewrite lookup_update_same; [reflexivity|eassumption]
+                 | apply sdict_get_set_same
+                 | intros; rewrite !sdict_get_set_other by auto; reflexivity ]]
+        | solve [exists d0; split; [eassumption|]; rewrite update_update; f_equal;
+                 unfold set_levels; cbn; rewrite ?replace_nth_twice; reflexivity] ]. }
+  assert (FL : fill_levels modes (sd_levels d) lv datas) by (apply mk_fill_levels; auto).
+  assert (Hnd1 : NoDup (map fst (m_structs m1))).
+  { rewrite Hst. cbn [map fst]. constructor; auto. }
+  destruct (fill_loop (m_next m) h _ HF _ _ _ _ FL k d [] [] m1 dl PUnbound Hnd1 eq_refl eq_refl HS Hdl Hind)
+    as (m2 & acc2 & Hr2 & Fi).
+  eapply runs_bind; [exact Hr2|]. clear Hr2 HF.
+  cbn [app] in Fi.
+  destruct (fi_dict _ _ _ _ _ _ _ Fi) as (dl0 & dl2 & Hdl0 & Hdl2 & Hget2 & Hoth2).
+  assert (dl0 = dl) by congruence. subst dl0.
+  destruct (fi_struct _ _ _ _ _ _ _ Fi) as (d0 & Hd0 & Hs2).
+  assert (d0 = d) by congruence. subst d0.
+  assert (HS2 : lookup (m_next m) (m_structs m2) = Some (set_levels d (fill_ls (m_next m1) modes (sd_levels d)))).
+  { rewrite Hs2. eapply lookup_update_same; eauto. }
+  assert (HW2 : lookup (m_next m) (m_wkd m2) = Some h) by (now rewrite (fi_wkd _ _ _ _ _ _ _ Fi)).
+  assert (Hv2 : sdict_get "vals" dl2 = None) by (rewrite Hoth2 by discriminate; exact Hvals).
+  repeat rstep.
+  apply runs_ret. split; [reflexivity|].
+  assert (Hn2 : m_next m2 = m_next m1 + nsparse modes) by apply Fi.
+  assert (Hfw' : ~ In (m_next m) (map fst (m_wkd m))) by (now apply lookup_None_notin).
+  split.
+  - apply state_eq; unfold fill_from_python, fresh_addrs; cbn [abs names tensors structs wkd heap next]; proj.
+    + reflexivity.
+    + apply Fi.
+    + rewrite Hs2, update_update, Hst, update_cons_same, (update_fresh _ _ _ _ Hfs).
+      unfold set_fields. cbn [map fst snd]. rewrite Nat.eqb_refl.
+      rewrite map_update_fresh by (unfold keys; rewrite map_map; exact Hfs).
+      f_equal. f_equal. unfold sd_fields. cbn [sd_levels sd_vals].
+      rewrite arr_addrs_app, (fill_ls_fields _ _ _ _ FL). cbn [arr_addrs]. rewrite Hn2, seq_app. reflexivity.
+    + rewrite (fi_wkd _ _ _ _ _ _ _ Fi), Hwkd, update_cons_same, (update_fresh _ _ _ _ Hfw').
+      cbn [map fst snd]. rewrite Nat.eqb_refl.
+      rewrite map_update_fresh by (unfold keys; rewrite map_map; exact Hfw').
+      f_equal.
+      * f_equal. unfold holder_of. proj. erewrite lookup_update_same by eassumption.
+        unfold holder_entries. rewrite sdict_get_set_other by discriminate. rewrite Hget2, sdict_get_set_same.
+        rewrite owned_PList, (fill_lv_owned _ _ _ _ FL). cbn [owned]. rewrite Hn2, seq_app, map_app. reflexivity.
+      * apply map_ext_in. intros [s' h'] Hin. cbn [fst snd].
+        assert (h' <> h) by (intro; subst h'; exact (Hfresh _ Hin)).
+        unfold holder_of. proj. rewrite lookup_update_other by auto. now rewrite (fi_other _ _ _ _ _ _ _ Fi) by auto.
+    + rewrite (fi_heap _ _ _ _ _ _ _ Fi), <- app_assoc. f_equal. unfold new_blocks.
+      rewrite Hn2, seq_app, map_app. reflexivity.
+    + rewrite Hn2. lia.
+  - proj. rewrite (fi_frees _ _ _ _ _ _ _ Fi). apply A.
+Qed.
+
+(* In Ownership.v the state left by a call that raises RuntimeError (= eval_call's Ok state, no name bound) is the state
+   of the two-operation history  Eval n ins sh ; Del n  for a name n that is not in use (before any reference-counting
+   cascade): every C13 theorem about histories (no leak, freed exactly once) therefore covers the RuntimeError path. *)
+Lemma remove_key_fresh : forall A k (l : list (nat * A)), lookup k l = None -> remove_key k l = l.
+Proof.
+  induction l as [|[k' v] r IH]; simpl; intros H; [reflexivity|].
+  destruct (Nat.eqb k' k) eqn:E; [discriminate|]. simpl. f_equal. now apply IH.
+Qed.
+
+Theorem runtime_error_state_is_eval_del : forall st n ins sh st' w fr,
+  eval_call st ins sh = (st', w, fr, Ok) -> lookup n (names st') = None ->
+  let '(st1, _, _) := apply_op st (Eval n ins sh) in
+  fst (fst (apply_op st1 (Del n))) = st'.
+Proof.
+  intros st n ins sh st' w fr He Hn. cbn [apply_op]. rewrite He.
+  cbn [apply_op set_names names]. unfold Ownership.bind. cbn [lookup fst]. rewrite Nat.eqb_refl.
+  cbn [fst set_names names tensors structs wkd heap next remove_key filter fst negb]. rewrite Nat.eqb_refl. cbn [negb].
+  fold (remove_key n (remove_key n (names st'))). rewrite !remove_key_fresh by (rewrite ?remove_key_fresh; auto).
+  destruct st'; reflexivity.
 Qed.
 
 End Exec.
